@@ -59,6 +59,8 @@ impl<S: BuildHasher + Clone + 'static + Send> AsyncLFUPolicy<S> {
 
     pub async fn push(&self, keys: Vec<u64>) -> Result<bool, CacheError> {
         if self.is_closed.load(Ordering::SeqCst) {
+            #[cfg(transparencies_stretto_verif)]
+            crate::verif::pushed(&keys, 2);
             return Ok(false);
         }
         let num_of_keys = keys.len() as u64;
@@ -66,18 +68,26 @@ impl<S: BuildHasher + Clone + 'static + Send> AsyncLFUPolicy<S> {
             return Ok(true);
         }
         let first = keys[0];
+        #[cfg(transparencies_stretto_verif)]
+        let verif_keys = crate::verif::push_keys(&keys);
 
         select! {
             rst =  self.items_tx.send(keys).fuse() => rst.map(|_| {
                 self.metrics.add(MetricType::KeepGets, first, num_of_keys);
+                #[cfg(transparencies_stretto_verif)]
+                crate::verif::pushed(&verif_keys, 0);
                 true
             })
             .map_err(|e| {
                 self.metrics.add(MetricType::DropGets, first, num_of_keys);
+                #[cfg(transparencies_stretto_verif)]
+                crate::verif::pushed(&verif_keys, 3);
                 CacheError::SendError(format!("sending on a disconnected channel, msg: {:?}", e))
             }),
             default => {
                 self.metrics.add(MetricType::DropGets, first, num_of_keys);
+                #[cfg(transparencies_stretto_verif)]
+                crate::verif::pushed(&verif_keys, 1);
                 Ok(false)
             }
         }
@@ -103,6 +113,8 @@ pub(crate) struct PolicyProcessor<S> {
     inner: Arc<Mutex<PolicyInner<S>>>,
     items_rx: Receiver<Vec<u64>>,
     stop_rx: Receiver<()>,
+    #[cfg(transparencies_stretto_verif)]
+    verif_guard: crate::verif::counters::WorkerGuard,
 }
 
 impl<S: BuildHasher + Clone + 'static + Send> PolicyProcessor<S> {
@@ -116,6 +128,8 @@ impl<S: BuildHasher + Clone + 'static + Send> PolicyProcessor<S> {
             inner,
             items_rx,
             stop_rx,
+            #[cfg(transparencies_stretto_verif)]
+            verif_guard: crate::verif::counters::WorkerGuard::policy(),
         }
     }
 
@@ -140,6 +154,8 @@ impl<S: BuildHasher + Clone + 'static + Send> PolicyProcessor<S> {
         match items {
             Ok(items) => {
                 let mut inner = self.inner.lock();
+                #[cfg(transparencies_stretto_verif)]
+                crate::verif::applied(&items);
                 inner.admit.increments(items);
             }
             Err(_) => {
